@@ -193,6 +193,7 @@ def work(args):
                 src = files[fpath].decode("utf-8")
                 try:
                     t = _ast.parse(src)
+                    compile(src, fpath, "exec")          # duplicate argument names are only rejected by the compiler proper, not by the parser
                     for n in t.body:
                         if isinstance(n, (_ast.FunctionDef, _ast.AsyncFunctionDef)) and n.name in ("_get_kwargs", "sync_detailed", "sync", "asyncio_detailed", "asyncio"):
                             a = n.args
@@ -296,6 +297,11 @@ def classify(run, r, prob):
         return "module_collision_order", f"classes {r['module_collisions']} share one module file"
     if r.get("bad_param_names") and prob["kind"] in ("syntax", "import", "names"):
         return "raw_fallback", f"parameter python names {r['bad_param_names']} are not identifiers"
+    for sg in r.get("sigs", []):
+        names = [n for n, _d in sg["spec"]["path"] + sg["spec"]["rest"]]
+        if sg["spec"]["body"] and "body" in names and prob["kind"] in ("syntax", "import") and \
+                (sg["file"] == prob["file"] or sg["file"][:-3].replace("/", ".").endswith(prob["file"].split(".", 1)[-1]) or prob["kind"] == "import" and prob["file"] in ("", None)):
+            return "capture_endpoint_function_args_body", f"operation {sg['op']} has a request body and a parameter whose python name is `body`: duplicate argument"
     gap = has_xid_gap(doc)
     if gap and prob["kind"] in ("syntax", "import", "names"):
         return "xid_gap", f"name {gap!r} contains a \\w character outside XID_Continue"
